@@ -198,8 +198,8 @@ func propCheck(c Case) string {
 		if ut && (!upperTri(as) || (c.Kind == "GJ" && !upperTri(c.X))) {
 			return ""
 		}
-		if pd && !exactPD(c.A) {
-			return ""
+		if pd && !exactPD(as) {
+			return "" // precondition at HEAD (8a0efbb): the SELECTED block is symmetric positive definite
 		}
 		if k == 0 {
 			return ""
